@@ -10,12 +10,11 @@
       covered: its behaviour against this client *is* one such stream.
     * `wfail`  — the write (flush of `smtpto`) that fails, if any (`safewrite` → `dropped()`).
                  For a write inside `blast()` the script says on which side of the statement
-                 `flagcritical = 1` it happens (`body` before, `final` after): the 1024-byte buffering of
-                 `smtpto` is not modelled, so *which bytes* such a write carries is not known to the
-                 model. The driver computes the label from the bytes of the failing write
-                 (`Spec.RemoteVerdict.flagWrite`; the client's variable is never read), and its oracle
-                 decides, again from those bytes, whether the write carries the end of the message
-                 (`Spec.RemoteVerdict.critWrite`).
+                 `flagcritical = 1` it happens (`body` before, `final` after).  This file does not model the
+                 1024-byte buffering of `smtpto`; `Nq.RemoteBuf` does (blast() over `Nq.Substdio`): there the
+                 label is *computed* from the write script (`blastLabel (bblast ws msg err)`), `smtpRunB` is
+                 `smtp()` with it, and `Props.C09.C09_buffered_reports` says it prints what `smtpRun` prints
+                 under the computed label (`toScript`).  The driver runs `smtpRunB`.
 
   Two layers:
     * `frames`  — how `smtpcode()` delimits replies in the stream (byte automaton `cnext`, one state
@@ -106,7 +105,7 @@ structure Script where
 
 /-- outcome: per-recipient reports (in emission order), the final report, what the server received.
     `wireOpen`: `wire` may be followed by a prefix of the encoded body (buffer-full flushes of `smtpto`
-    before the run stopped; the 1024-byte buffering is not modelled).
+    before the run stopped; exact in `Nq.RemoteBuf.ResB.wire`).
     `quit`: `quit()` was reached (a verdict was announced; QUIT was written unless that write failed). -/
 structure Res where
   rcpt : List Bytes
